@@ -177,6 +177,9 @@ func (server *Server) ServeCodec(codec ServerCodec) {
 			})
 		}
 	}
+	// Drain the decode queue first: requests still queued in it add to wg and
+	// touch the stream table, which must not happen once wg.Wait has started.
+	pipeline.Close()
 	wg.Wait()
 	server.mutex.Lock()
 	server.deleteCodec(codec)
@@ -189,7 +192,6 @@ func (server *Server) ServeCodec(codec ServerCodec) {
 		ctx.stream.Close()
 	}
 	readStream.Close()
-	pipeline.Close()
 }
 
 // deleteCodec closes the specified codec.
@@ -528,6 +530,11 @@ func (server *Server) listen(sock socket.Socket, address string, New NewServerCo
 			}
 			if err == io.EOF || err == io.ErrUnexpectedEOF {
 				if atomic.CompareAndSwapInt32(&svrctx.closed, 0, 1) {
+					// Drain the decode queue before waiting for the handlers
+					// (see ServeCodec).
+					if svrctx.pipeline != nil {
+						svrctx.pipeline.Close()
+					}
 					svrctx.wg.Wait()
 					server.mutex.Lock()
 					delete(codecs, svrctx.codec)
@@ -539,9 +546,6 @@ func (server *Server) listen(sock socket.Socket, address string, New NewServerCo
 					}
 					if svrctx.readStream != nil {
 						svrctx.readStream.Close()
-					}
-					if svrctx.pipeline != nil {
-						svrctx.pipeline.Close()
 					}
 				}
 			}
